@@ -44,13 +44,15 @@ class CellMonitor:
     def __init__(self):
         self.recs = {}
         self.bio = {}  # id(cells) -> (cells, biomolecule)
+        self.last_bio = None  # the run's biomolecule, as last handed to any assign_cells
         self.coord_version = 0
         self._cache = None  # (model_list, coord_version, xyz, index)
         self.findings = {}  # key -> {count, witness}
         self.stats = {"queries": 0, "queries_unobserved": 0, "adds": 0, "removes": 0,
                       "noop_removes": 0, "coord_writes_registered": 0, "moves_cross": 0,
                       "assigns": 0, "detached": 0, "expected_pairs": 0,
-                      "queries_with_neighbours": 0}
+                      "queries_with_neighbours": 0,
+                      "queries_on_map_not_built_by_assign_cells": 0}
         self.site_events = set()  # (site, event kind)
         self.query_sites = {}
         self._orig = {}
@@ -97,6 +99,7 @@ class CellMonitor:
 
         def assign_cells(self, biomolecule):
             mon.bio[id(self)] = (self, biomolecule)
+            mon.last_bio = biomolecule
             mon.stats["assigns"] += 1
             return o_assign(self, biomolecule)
 
@@ -213,6 +216,12 @@ class CellMonitor:
     def check_query(self, cells, a, res):
         ent = self.bio.get(id(cells))
         st = self.stats
+        if ent is None and self.last_bio is not None:
+            # a map that was filled without assign_cells (atom by atom): it still indexes
+            # the run's one biomolecule -- the monitor must not go blind on it
+            ent = (cells, self.last_bio)
+            st["queries_on_map_not_built_by_assign_cells"] = \
+                st.get("queries_on_map_not_built_by_assign_cells", 0) + 1
         if ent is None:
             st["queries_unobserved"] += 1
             return
